@@ -13,7 +13,7 @@ from .. import refgeo as rg
 from leuvenmapmatching.util import dist_latlon as dl
 
 ID = "C14"
-CASES = {"quick": 16000, "thorough": 800000}
+CASES = {"quick": 60000, "thorough": 1200000}
 MIN_CASES_PER_SHARD = 400
 CASE_TIMEOUT = 10
 R = rg.R
@@ -296,7 +296,7 @@ def shard_setup(ctx):
 
 
 TECHNIQUE = "runtime monitoring: reference-model oracle (3-D vector spherical geometry, self-validated) over generated calls of the real geodesic primitives"
-LEVEL_TEXT = ("Every call of the real latitude-longitude primitives on 16k (quick) / 800k (thorough) generated configurations "
+LEVEL_TEXT = ("Every call of the real latitude-longitude primitives on {Q} (quick) / {T} (thorough) generated configurations "
               "(segment lengths 0.1 m..5 km, all bearing quadrants, both hemispheres, clamped and interior projections, crossing/"
               "parallel/T segments, radii 1 m..20 km) is judged against an independent vector computation that validates itself "
               "in every shard; held-on-observed within stated tolerances.")
